@@ -2,7 +2,7 @@
 import ast
 
 from ..model import AnalysisError, dotted, unparse, ClassInfo
-from ..util import FACTS_I, POS, FACTS, FACTS_I, U, enum_paths, walk_no_nested, is_yield_call, Yields
+from ..util import resolved_text, FACTS_I, POS, FACTS, FACTS_I, U, enum_paths, walk_no_nested, is_yield_call, Yields
 from ..paths import call_attr, call_name
 
 WM = 'scales/pool/watermark.py'
@@ -104,7 +104,19 @@ def r1_r4(ctx, cls):
           'request arriving while a connection is still opening passes the same test')
   ys = Yields(prog, universe=lambda t: not t.module.rel.startswith(('scales/kafka', 'scales/http', 'scales/redis', 'scales/thrifthttp')))
   n_create = n_queue = n_fail = 0
+  # methods of the pool that change the connection count: a count read into a local before one of them runs is stale afterwards
+  changers = set(m.name for m in g.cls.methods.values() if any(isinstance(x, ast.Attribute) and x.attr == '_current_size' and isinstance(x.ctx, ast.Store) for x in ast.walk(m.node)))
   for ev, ex in enum_paths(ctx, g):
+    for i_, e_ in enumerate(ev):
+      if e_.kind != 'cond' or '_max_size' not in resolved_text(ev, i_, e_.node):
+        continue
+      for x_ in [x for x in ast.walk(e_.node) if isinstance(x, ast.Name)]:
+        binds = [j for j, d in enumerate(ev[:i_]) if d.kind == 'stmt' and isinstance(d.node, ast.Assign) and any(isinstance(t, ast.Name) and t.id == x_.id for t in d.node.targets)]
+        if not binds or '_current_size' not in resolved_text(ev, i_, x_):
+          continue
+        stale = [U(c.node)[:50] for c in ev[binds[-1] + 1:i_] if c.kind == 'call' and (call_attr(c.node) in changers and U(c.node.func).startswith('self.') or is_yield_call(c.node))]
+        ctx.ob('C07.R1', g, 'the connection count compared with the high watermark is the current one', not stale,
+               'the count is read into %r, then %s runs (it can change the count: dead cached connections are dropped there), then the stale value is compared with max' % (x_.id, stale), why1)
     sw = size_writes(ev)
     creates = [i for i, e in enumerate(ev) if e.kind == 'call' and call_attr(e.node) == 'CreateSink']
     fs = facts(ev)
